@@ -55,7 +55,7 @@ func init() {
 
 func genC11(seed int64, tier string, emit func(run.Case)) {
 	r := gen.New(seed)
-	n := tierN(tier, 7000, 300000)
+	n := tierN(tier, 7000, 150000)
 	for i := 0; i < n; i++ {
 		q := r.Sub(i)
 		switch q.Intn(10) {
